@@ -506,7 +506,54 @@ def gen_externs(rng):
     return GenProgram(HEAD + "\n".join(L) + "\n", "root", ["leafx"], [], {"family": "externs"})
 
 
-FAMILIES = [("annotated", gen_annotated, 0.32), ("depth2", gen_depth2, 0.30), ("instr", gen_instr, 0.11), ("hostile", gen_hostile, 0.19), ("externs", gen_externs, 0.08)]
+def gen_alias_chain(rng):
+    """window statements cut from arguments / allocations and from each other (y = x[..]; z = y[..]),
+    used directly (read / write / reduce), in arithmetic with other buffers and as call arguments;
+    precisions and memories drawn per declaration, and changed again afterwards by the
+    set_precision / set_memory / set_window steps: every use through an alias has to be judged with
+    the annotations of the buffer it is cut from"""
+    px = rng.choice(["f32", "f32", "f64", "i8", "R"])
+    po = rng.choice(["f32", "f32", "f64", px])
+    pl = rng.choice(["f32", "f64", px])
+    mx = rng.choice(["DRAM", "DRAM", "AVX2", "DRAM_STACK", "DRAM_STATIC"])
+    as_alloc = rng.random() < 0.4
+    L = []
+    w = L.append
+    w("@proc")
+    w(f"def leafa(n: size, d: [{pl}][n], s: [{pl}][n]):")
+    w("    for i in seq(0, n):")
+    w("        d[i] = s[i]")
+    w("")
+    w("@proc")
+    if as_alloc:
+        w(f"def root(out: {po}[8], inp: {px}[8]):")
+        w(f"    x: {px}[8] @ {mx}")
+        if mx != "AVX2":
+            w("    for i in seq(0, 8):")
+            w("        x[i] = inp[i]")
+    else:
+        w(f"def root(out: {po}[8], inp: {px}[8], x: {px}[8] @ {mx}):")
+    w(f"    y = x[{rng.choice(['0:6', '0:8', '1:7'])}]")
+    deep = rng.random() < 0.6
+    if deep:
+        w(f"    z = y[{rng.choice(['1:5', '0:4', '1:5'])}]")
+    a = "z" if deep else "y"
+    uses = [
+        f"    for i in seq(0, 4):\n        out[i] = {a}[i]",
+        f"    for i in seq(0, 4):\n        {a}[i] = out[i]",
+        f"    for i in seq(0, 4):\n        {a}[i] += out[i]",
+        f"    for i in seq(0, 4):\n        out[i] = {a}[i] + out[i]",
+        f"    leafa(4, out[0:4], {a}[0:4])",
+        f"    leafa(2, out[0:2], y[1:3])",
+        f"    leafa(4, {a}[0:4], out[4:8])",
+        f"    out[0] = x[0] + {a}[1]",
+    ]
+    for u in rng.sample(uses, rng.choice([1, 2, 3])):
+        w(u)
+    return GenProgram(HEAD + "\n".join(L) + "\n", "root", ["leafa"], [], {"family": "alias_chain"})
+
+
+FAMILIES = [("annotated", gen_annotated, 0.28), ("depth2", gen_depth2, 0.26), ("instr", gen_instr, 0.10), ("hostile", gen_hostile, 0.16), ("externs", gen_externs, 0.07), ("alias_chain", gen_alias_chain, 0.13)]
 
 
 def make_templates(ctx):
